@@ -17,6 +17,7 @@ import (
 	"github.com/PaesslerAG/jsonpath"
 	"github.com/piprate/json-gold/ld"
 
+	"github.com/hyperledger/aries-framework-go/component/models/presexch/internal/requirementlogic"
 	"github.com/hyperledger/aries-framework-go/component/models/verifiable"
 )
 
@@ -277,6 +278,26 @@ func selectVC(typelessVerifiable interface{},
 
 // Ensures the matched credentials meet the submission requirements.
 func (pd *PresentationDefinition) evalSubmissionRequirements(matched map[string]MatchValue) error {
+	// With submission requirements the holder may satisfy the definition with a subset of the input descriptors
+	// (pick rules): evaluate the same requirement logic the holder side uses to build the presentation.
+	if len(pd.SubmissionRequirements) > 0 {
+		req, err := makeRequirement(pd.SubmissionRequirements, pd.InputDescriptors)
+		if err != nil {
+			return err
+		}
+
+		matchedIDs := requirementlogic.DescriptorIDSet{}
+		for id := range matched {
+			matchedIDs.Add(id)
+		}
+
+		if !req.toLogic().IsSatisfiedBy(matchedIDs) {
+			return fmt.Errorf("matched input descriptors do not satisfy the submission requirements")
+		}
+
+		return nil
+	}
+
 	// TODO support submission requirement rules: https://github.com/hyperledger/aries-framework-go/issues/2109
 	descriptorIDs := descriptorIDs(pd.InputDescriptors)
 
